@@ -414,6 +414,20 @@ impl VM {
         setval: Option<Rc<Object>>,
         line: usize,
     ) -> Result<Rc<Object>, RTError> {
+        // Reassigning the selector field does not re-interpret the bytes behind the
+        // header: the layer the captured value announces is parsed first, so that it
+        // stays reachable (and is written back) as before
+        if setval.is_some() && prop == PacketPropType::EtherType && eth.inner.borrow().is_none() {
+            let announced = match eth.get_ethertype_raw() {
+                EtherTypes::Vlan => Some(PacketPropType::Vlan),
+                EtherTypes::Ipv4 => Some(PacketPropType::Ipv4),
+                EtherTypes::Ipv6 => Some(PacketPropType::Ipv6),
+                _ => None,
+            };
+            if let Some(layer) = announced {
+                let _ = self.exec_prop_eth(eth.clone(), layer, None, line);
+            }
+        }
         // A named layer property follows the selector field, like $n does:
         // a layer the header does not announce is not there
         if setval.is_none() && matches!(prop, PacketPropType::Vlan | PacketPropType::Ipv4 | PacketPropType::Ipv6) {
@@ -564,6 +578,20 @@ impl VM {
         setval: Option<Rc<Object>>,
         line: usize,
     ) -> Result<Rc<Object>, RTError> {
+        // Reassigning the selector field does not re-interpret the bytes behind the
+        // header: the layer the captured value announces is parsed first, so that it
+        // stays reachable (and is written back) as before
+        if setval.is_some() && prop == PacketPropType::EtherType && vlan.inner.borrow().is_none() {
+            let announced = match vlan.get_ethertype_raw() {
+                EtherTypes::Vlan => Some(PacketPropType::Vlan),
+                EtherTypes::Ipv4 => Some(PacketPropType::Ipv4),
+                EtherTypes::Ipv6 => Some(PacketPropType::Ipv6),
+                _ => None,
+            };
+            if let Some(layer) = announced {
+                let _ = self.exec_prop_vlan(vlan.clone(), layer, None, line);
+            }
+        }
         // A named layer property follows the selector field, like $n does:
         // a layer the header does not announce is not there
         if setval.is_none() && matches!(prop, PacketPropType::Vlan | PacketPropType::Ipv4 | PacketPropType::Ipv6) {
@@ -725,6 +753,20 @@ impl VM {
         setval: Option<Rc<Object>>,
         line: usize,
     ) -> Result<Rc<Object>, RTError> {
+        // Reassigning the selector field does not re-interpret the bytes behind the
+        // header: the layer the captured value announces is parsed first, so that it
+        // stays reachable (and is written back) as before
+        if setval.is_some() && prop == PacketPropType::Protocol && ipv4.inner.borrow().is_none() {
+            let announced = match ipv4.get_protocol_raw() {
+                Protocols::Udp => Some(PacketPropType::Udp),
+                Protocols::Tcp => Some(PacketPropType::Tcp),
+                Protocols::Ipv6 => Some(PacketPropType::Ipv6),
+                _ => None,
+            };
+            if let Some(layer) = announced {
+                let _ = self.exec_prop_ipv4(ipv4.clone(), layer, None, line);
+            }
+        }
         // A named layer property follows the selector field, like $n does:
         // a layer the header does not announce is not there
         if setval.is_none() && matches!(prop, PacketPropType::Udp | PacketPropType::Tcp | PacketPropType::Ipv6) {
@@ -966,6 +1008,19 @@ impl VM {
         setval: Option<Rc<Object>>,
         line: usize,
     ) -> Result<Rc<Object>, RTError> {
+        // Reassigning the selector field does not re-interpret the bytes behind the
+        // header: the layer the captured value announces is parsed first, so that it
+        // stays reachable (and is written back) as before
+        if setval.is_some() && prop == PacketPropType::NextHeader && ipv6.inner.borrow().is_none() {
+            let announced = match ipv6.get_next_header_raw() {
+                NextHeaders::Udp => Some(PacketPropType::Udp),
+                NextHeaders::Tcp => Some(PacketPropType::Tcp),
+                _ => None,
+            };
+            if let Some(layer) = announced {
+                let _ = self.exec_prop_ipv6(ipv6.clone(), layer, None, line);
+            }
+        }
         // A named layer property follows the selector field, like $n does:
         // a layer the header does not announce is not there
         if setval.is_none() && matches!(prop, PacketPropType::Udp | PacketPropType::Tcp) {
